@@ -455,7 +455,7 @@ def run_case(sh, i, plan):
     if i % 12 == 5:
         revised_module_case(sh, rng)
         return
-    opts = U.Opts(depth=rng.choice([2, 2, 3, plan["depth"]]), share_prob=0.4)
+    opts = U.Opts(depth=rng.choice([2, 2, 3, plan["depth"]]), share_prob=0.4, none_members=True)
     extra = None
     caught = []
     with warnings.catch_warnings(record=True) as wlog:
